@@ -67,6 +67,12 @@ def run(ctx):
                why='`given` must be the live state (coordinates refreshed earlier in this sweep hold their new values), index = loop index', sp=call.sp)
         ctx.eq('C05.store_idx', A, 'store_idx', ev.t(ls.next[kcs]), T.app('upd', lh_cs, i, call.res),
                why='the answer is written to coordinate i only', sp=ls.sp)
+        try:
+            fin = ev.final_term('self.current_state')
+        except Exception:
+            fin = None
+        ctx.check('C05.final', A, 'final', fin is ls.lx.get(kcs), expected='the state after the step is the state the sweep leaves, on every path', found=show(fin)[:200] if fin is not None else '?', sp=sp,
+                  why='a path around the sweep (guard clause) or an edit of the state after it is a different transition for the inputs that take it')
     extra = [keyrepr(x) for x in ls.lh if keyrepr(x) not in ('self.current_state', 'self.target')]
     others = [w for w in ev.written_ext() if w not in ('self.current_state', 'self.target')]
     ctx.check('C05.no_other_write', A, 'no_other_write', not extra and not others, expected='only current_state[i] and the conditional (through &mut) change',
